@@ -102,7 +102,16 @@ func propC04(c *Ctx, r *Report) {
 	for f := range avoid {
 		for _, s := range c.callSitesOf(f) {
 			cn := fname(s.Caller)
-			if cn != "node.Pegnetd.SyncBlock" && cn != "node.Pegnetd.DBlockSync" {
+			inPipeline := cn == "node.Pegnetd.SyncBlock" || cn == "node.Pegnetd.DBlockSync"
+			if !inPipeline {
+				// a stage split off from SyncBlock / DBlockSync after the reference tree is part of the pipeline
+				for _, on := range c.ownerNames(s.Caller) {
+					if on == "node.Pegnetd.SyncBlock" || on == "node.Pegnetd.DBlockSync" {
+						inPipeline = isNewHelper(s.Caller)
+					}
+				}
+			}
+			if !inPipeline {
 				r.viol("C04-R2/event-roots", "event "+f.Name()+" called from "+cn, c.ipos(s.Site), "a protocol event function has a caller other than the block pipeline")
 			}
 		}
